@@ -151,3 +151,10 @@ Definition lin_wcs (A Ainv : list qvec) (b : qvec) (tw tp : list Z)
         tw tp
         (map (fun row => map (fun x => negb (Qeq_bool x 0)) row) A)
         shape bounds.
+
+(* array_axis_physical_types: for every array axis (in array order) the physical types of the world axes
+   correlated with it, in world order *)
+Definition array_axis_types (corr : list (list bool)) (types : list Z) (n : nat) : list (list Z) :=
+  rev (map (fun p => map (fun w => nth w types 0%Z) (filter (fun w => nth p (nth w corr []) false) (seq 0 (length corr))))
+           (seq 0 n)).
+
